@@ -54,7 +54,9 @@ func Parse(yangfiles, path []string) (map[string]*yang.Entry, []error) {
 
 	entries := make(map[string]*yang.Entry)
 	for _, m := range ms.Modules {
-		e := yang.ToEntry(m)
+		// Of several revisions of a module, return the one its bare name
+		// denotes (the latest), not whichever the map yields last.
+		e := yang.ToEntry(ms.Modules[m.Name])
 		entries[e.Name] = e
 	}
 
